@@ -332,7 +332,12 @@ fn semantic(ty: &str, c: &Comp, v: &str) -> Verdict {
                 return Verdict::Unspecified("integer-without-comma".into());
             }
             if v.chars().all(|ch| ch == '0' || ch == ',') {
-                return Verdict::Unspecified("zero-amount".into());
+                // the crate documents (and its error texts pin) "must be greater than zero" for the
+                // transaction amounts 32A-D, 33B, the floor limit 34F and the rate 36: not judged there.
+                // Everywhere else (balances, charges, sums, statement lines) zero is an ordinary amount.
+                if matches!(ty, "Field32A" | "Field32B" | "Field32C" | "Field32D" | "Field33B" | "Field34F" | "Field36") {
+                    return Verdict::Unspecified("zero-amount".into());
+                }
             }
             if v.split_once(',').map(|x| x.1.len()).unwrap_or(0) > 2 && ty != "Field36" && ty != "Field37H" {
                 // how many decimals are allowed depends on the currency: judged by C06
@@ -867,6 +872,13 @@ pub fn candidates(spec: &Spec, k: usize, r: &mut Rng, random_extra: usize) -> Ve
                 for d in ["491231", "500101", "501231", "510101", "791231", "800101", "991231", "000101", "240229", "241230", "250101"] {
                     let over = |l2: usize, c2: usize, rep: usize| if l2 == li && c2 == ci && rep == 0 { Some(format!("{}{}", c.lit, d)) } else { None };
                     out.push(Candidate { content: render(spec, k, &over, &default_counts), component: comp_label.clone(), class: format!("date={d}") });
+                }
+            }
+            // zero amounts / rates
+            if matches!(c.name.as_str(), "amount" | "rate") {
+                for z in ["0,", "0,00"] {
+                    let over = |l2: usize, c2: usize, rep: usize| if l2 == li && c2 == ci && rep == 0 { Some(format!("{}{}", c.lit, z)) } else { None };
+                    out.push(Candidate { content: render(spec, k, &over, &default_counts), component: comp_label.clone(), class: format!("zero={z}") });
                 }
             }
             // separator missing / doubled
